@@ -218,6 +218,7 @@ int32_t jls_twr_open(struct jls_twr_s ** instance, const char * path) {
     }
     self->quit = 0;
     self->flags = 0;
+    memset(self->fsr_entry_size_bits, 0, sizeof(self->fsr_entry_size_bits));
     self->wr = wr;
     self->flush_send_id = 0;
     self->flush_processed_id = 0;
@@ -320,9 +321,14 @@ int32_t jls_twr_source_def(struct jls_twr_s * self, const struct jls_source_def_
 }
 
 int32_t jls_twr_signal_def(struct jls_twr_s * self, const struct jls_signal_def_s * signal) {
+    if ((NULL == signal) || (signal->signal_id >= JLS_SIGNAL_COUNT)) {
+        return JLS_ERROR_PARAMETER_INVALID;
+    }
     jls_bkt_process_lock(self->bk);
-    self->fsr_entry_size_bits[signal->signal_id] = jls_datatype_parse_size(signal->data_type);
     int32_t rv = jls_wr_signal_def(self->wr, signal);
+    if ((0 == rv) && (JLS_SIGNAL_TYPE_FSR == signal->signal_type)) {
+        self->fsr_entry_size_bits[signal->signal_id] = jls_datatype_parse_size(signal->data_type);
+    }
     jls_bkt_process_unlock(self->bk);
     return rv;
 }
@@ -355,7 +361,12 @@ int32_t jls_twr_fsr(struct jls_twr_s * self, uint16_t signal_id,
             },
             .d = 0
     };
-    uint32_t length = (data_length * self->fsr_entry_size_bits[signal_id] + 7) / 8;
+    if (signal_id >= JLS_SIGNAL_COUNT) {
+        return JLS_ERROR_PARAMETER_INVALID;
+    } else if (0 == self->fsr_entry_size_bits[signal_id]) {
+        return JLS_ERROR_NOT_FOUND;  // not a defined FSR signal: the sample size is unknown
+    }
+    uint32_t length = (uint32_t) ((((uint64_t) data_length) * self->fsr_entry_size_bits[signal_id] + 7) / 8);
     int32_t rc;
     if (self->flags & JLS_TWR_FLAG_DROP_ON_OVERFLOW) {
         rc = msg_send_inner(self, &hdr, (const uint8_t *) data, length);
